@@ -238,9 +238,29 @@ func inCycle(b *ssa.BasicBlock) bool {
 }
 
 func ruleRefill(p *Prog, r *RuleResult) {
-	f := p.Method("bitstream", "DefaultInputBitStream", "readFromInputStream")
-	fname := p.FnName(f)
+	top := p.Method("bitstream", "DefaultInputBitStream", "readFromInputStream")
 	n := 0
+	// the refill may be delegated to a helper: analyse the function (refill entry or one of its same-package
+	// helpers) that actually reads the source
+	f := top
+	hasRead := func(g *ssa.Function) bool {
+		found := false
+		eachInstr(g, func(i ssa.Instruction) {
+			if c := callOf(i); c != nil && (isPkgFunc(c, "io", "ReadFull") || isPkgFunc(c, "io", "ReadAtLeast") || (c.IsInvoke() && c.Method.Name() == "Read" && len(c.Args) == 1)) {
+				found = true
+			}
+		})
+		return found
+	}
+	if !hasRead(top) {
+		for _, h := range p.helperClosure(top) {
+			if hasRead(h) {
+				f = h
+				break
+			}
+		}
+	}
+	fname := p.FnName(f)
 	eachInstr(f, func(i ssa.Instruction) {
 		c := callOf(i)
 		if c == nil {
@@ -302,7 +322,13 @@ func ruleRefill(p *Prog, r *RuleResult) {
 			}
 			grow(cv, 0)
 			delete(sizeVals, cv)
-			countP := ssa.Value(f.Params[len(f.Params)-1])
+			// the requested count: an integer parameter of the analysed function
+			var countP ssa.Value
+			for _, prm := range f.Params {
+				if b, ok := prm.Type().Underlying().(*types.Basic); ok && b.Info()&types.IsInteger != 0 {
+					countP = prm
+				}
+			}
 			satisfied := false
 			for lb := range loop {
 				ifi := blockIf(lb)
